@@ -638,3 +638,21 @@ func CleanScratch() {
 }
 
 var _ = filepath.Join
+
+// PredecessorVersions are the consensus versions of the custom modules in the release this tree descends from (pinned:
+// the baseline commit). A chain written by that release carries them in its module version map.
+var PredecessorVersions = map[string]uint64{"aol": 1, "did": 1, "pnft": 1, "burn": 1}
+
+// AsWrittenByPredecessor rewrites the custom modules' entries of the module version map (deliver state) to the pinned
+// predecessor values: the state an in-order upgraded node really has when the next upgrade height arrives. On a tree that
+// did not bump a consensus version this changes nothing.
+func (w *World) AsWrittenByPredecessor() {
+	ctx := w.Ctx()
+	vm := w.App.UpgradeKeeper.GetModuleVersionMap(ctx)
+	for m, v := range PredecessorVersions {
+		if _, ok := vm[m]; ok {
+			vm[m] = v
+		}
+	}
+	w.App.UpgradeKeeper.SetModuleVersionMap(ctx, vm)
+}
